@@ -53,6 +53,9 @@ CASES = [
     ("mod.first", "('x',)", "Value.equal_to(DataPath('allowed', ListValue()).first())", f"Value.equal_to({lit(P_ALLOWED, None, 'first')})", []),
     ("mod.last", "('x',)", "Value.not_equal_to(DataPath('allowed', ListValue()).last())", f"Value.not_equal_to({lit(P_ALLOWED, None, 'last')})", []),
     ("mod.all.dtype", "('x',)", "Value.dtype.in_(DataPath('allowed', ListValue()).dtype().all())", f"Value.dtype.in_({lit(P_ALLOWED, 'dtype', 'all')})", []),
+    ("arg.symbolic_index", "('x',)", "Value.equal_to(DataPath('xs', i))", f"Value.equal_to(ref_get((('prim', 'xs'), ('prim', i)), doc))", [("i", "int")]),
+    ("arg.symbolic_index.in_list", "('x',)", "Value.in_([DataPath('xs', i), 5])", f"Value.in_([ref_get((('prim', 'xs'), ('prim', i)), doc), 5])", [("i", "int")]),
+    ("arg.symbolic_index.length", "('n',)", "Value.equal_to(DataPath('allowed', i).length())", f"Value.equal_to(ref_get((('prim', 'allowed'), ('prim', i)), doc, 'length') if isinstance(ref_get((('prim', 'allowed'), ('prim', i)), doc), (str, list, dict)) else None)", [("i", "int")], "i in (-1, 2)"),
     ("absent", "('x',)", "Value.equal_to(DataPath('zz', 0))", f"Value.equal_to({lit(P_ZZ)})", []),
     ("absent.nonconcrete", "('x',)", "Value.in_(DataPath('zz', ListValue()))", "Value.in_([])", []),
     ("in_list", "('x',)", "Value.in_([DataPath('ref'), t])", f"Value.in_([{lit(P_REF)}, t])", [("t", "int")]),
@@ -81,6 +84,21 @@ SPEC_CASES = [
 def cases(ctx):
     L = 2 if ctx.quick else 3
     out = []
+    # history: one rule object, documents that compare equal under == but differ in type (1 / 1.0 / True)
+    for n, (d1, d2) in enumerate([("{'a': 1, 'b': u2, 'x': u1}", "{'a': 1.0, 'b': u2, 'x': u1}"), ("{'a': True, 'b': u2, 'x': u1}", "{'a': 1, 'b': u2, 'x': u1}"),
+                                  ("{'a': [1, 2], 'b': u2, 'x': u1}", "{'a': [True, 2.0], 'b': u2, 'x': u1}")]):
+        body = f"""
+rule = Rule(('b',), Value.dtype.equal_to(DataPath('a').dtype()) | Value.dtype.equal_to(DataPath('a', 0).dtype()))
+rule2 = Rule(('x',), Value.dtype.in_([DataPath('a').dtype(), DataPath('b').dtype()]))
+ok = True
+for doc in ({d1}, {d2}, {d1}):
+    for r, cond in ((rule, lambda d: Value.dtype.equal_to(ref_get((('prim', 'a'),), d, 'dtype')) | Value.dtype.equal_to(ref_get((('prim', 'a'), ('prim', 0)), d, 'dtype'))),
+                    (rule2, lambda d: Value.dtype.in_([ref_get((('prim', 'a'),), d, 'dtype'), ref_get((('prim', 'b'),), d, 'dtype')]))):
+        lit = Rule(r.path, cond(doc))
+        ok = ok and same('verdict with the referenced value of THIS document', summarize_test(r.test(doc)), summarize_test(lit.test(doc)))
+return ok
+"""
+        out.append(mk_case(f"c17.history.{n}", [("u1", U), ("u2", "int")], body, pre=[f"BU({L}, u1, u2)"], stubs=["sym_repr"]))
     for kind, table in (("api", CASES), ("spec", SPEC_CASES)):
         for cid, rpath, cond, cond_lit, extra, *more in table:
             heavy = "ListValue()" in rpath or "list_value" in rpath
